@@ -6,6 +6,7 @@
 package main
 
 import (
+	"flag"
 	"fmt"
 	"os"
 	"sort"
@@ -69,11 +70,29 @@ func main() {
 	var totalStates int
 	var totalTrans int64
 	var tables []map[string]any
-	run := func(part, cfg string, depth int, names func(p []int) []string, numOps int, opsFor func(path []int, info string) []int, maxFrontier int) {
+	var notStarted []string
+	total := 72 * time.Second
+	if !r.Quick() {
+		total = 26 * time.Minute
+	}
+	if f := flag.Lookup("budget"); f != nil {
+		if d, e := time.ParseDuration(f.Value.String()); e == nil && d > 0 {
+			total = d
+		}
+	}
+	run := func(part, cfg string, depth int, names func(p []int) []string, numOps int, opsFor func(path []int, info string) []int, share float64) {
 		tag := part + "|" + cfg + "|" + r.Tier
 		t0 := time.Now()
+		// a search may use at most `share` of the tier's budget, so that one deep search cannot starve the others
+		own := t0.Add(time.Duration(float64(total) * share))
+		stop := func() bool { return r.Expired() || (share > 0 && time.Now().After(own)) }
 		st := mc.ReplayBFS(mc.BFSConfig{Tag: tag, NumOps: numOps, MaxDepth: depth, Workers: pool.N(), Exec: func(path []int) mc.ExecResult { return pool.Exec(tag, path) },
-			OnViol: onViol, Stop: r.Expired, OpsFor: opsFor, MaxFrontier: maxFrontier})
+			OnViol: onViol, Stop: stop, OpsFor: opsFor})
+		if st.States == 0 {
+			notStarted = append(notStarted, fmt.Sprintf("%s/%s depth %d", part, cfg, depth))
+			r.Exhaustive = false
+			return
+		}
 		// a later, deeper search of the same (part,config) subsumes an earlier one: count it once
 		row := map[string]any{"part": part, "config": cfg, "alphabet": numOps, "depth_bound": depth, "depth_completed": st.DepthDone,
 			"states": st.States, "transitions": st.Transitions, "frontier_per_depth": st.Frontier, "stuttering_or_disabled": st.Disabled, "revisits": st.Revisits,
@@ -111,6 +130,7 @@ func main() {
 	cov["traces_validated_against_impl"] = int(totalTrans)
 	cov["explanation"] = "every transition is a replay of the recipe path on real fsm.StateMachine instances (env.Chain direct path: proposer ApplyBlock on a copy, replica ApplyBlock, IndexQC, IndexBlock, Commit) followed by the oracles on raw state scans and balance differences; there is no separate model trace"
 	cov["per_part"] = tables
+	cov["searches_not_started_before_deadline"] = notStarted
 	ks := make([]string, 0, len(stats.m))
 	for k := range stats.m {
 		ks = append(ks, k)
